@@ -870,7 +870,7 @@ func relabelOwnLocality(connClasses map[string]bool, w world, d []diffEntry) {
 // push (serviceNeedsPush), so the long-lived istiod's PushContext service index is not rebuilt; an extension provider
 // backed by that service (resolved by a global lookup, which a from-scratch build satisfies) is then resolved differently
 // by the long-lived and by a cold-started istiod - for every proxy, also for one that connects later. Recognised by cause:
-// EVERY object changed since the last comparison is the Service k-svc, it went absent -> exported-to-nobody or
+// AMONG the objects changed since the last comparison there is the Service k-svc going absent -> exported-to-nobody or
 // exported-to-nobody -> absent, an object of the world uses the provider backed by it (Telemetry tel-root 3 / tel-ns2 1:
 // tcp-als), the reference is a COLD server, and the differences are LDS only and only inside the provider-derived
 // config (the texts agree once every innermost typed config that mentions the service's hostname is taken out).
@@ -906,10 +906,16 @@ func relabelProviderNobody(before, w world, trigger []string, clause string, d [
 	if len(d) == 0 || len(trigger) == 0 || clause != "stale-vs-cold-start" || !nobodyTrigger(before, w) || !usesKsvcProvider(w) {
 		return
 	}
+	// AMONG the changed objects there is the Service (co-triggers are allowed: whatever LDS difference THEY cause outside
+	// the provider's typed configs still fails the confinement test below)
+	among := false
 	for _, id := range trigger {
-		if id != "k-svc" {
-			return
+		if id == "k-svc" {
+			among = true
 		}
+	}
+	if !among {
+		return
 	}
 	for _, x := range d {
 		if x.Type != "LDS" || x.Kind != "stale" || stripMentions(x.Held, nobodyProviderHost) != stripMentions(x.Want, nobodyProviderHost) {
